@@ -141,9 +141,7 @@ theorem dense_step (s : Sheet) (op : Op) (h : Dense s.rows) : Dense (step s op).
           (fun rs a _ hd => dense_setSlot rs _ _ _ hd) _ _ (fun _ _ => trivial) hd1
   | getStyle c r =>
     simp only [step, getStyle]
-    by_cases h0 : c = 0 ∨ r = 0
-    · simp [h0, h]
-    · simp only [h0, if_false]; exact dense_prepare _ _ _ (by omega) h
+    split <;> exact h
   | merge c1 r1 c2 r2 =>
     simp only [step, mergeCell]
     by_cases h0 : c1 = 0 ∨ r1 = 0 ∨ c2 = 0 ∨ r2 = 0
